@@ -127,6 +127,10 @@ void timed_block_reset();
 uint64_t last_cond_reacquire_seq();
 /// set: a *blocking* (non-try, non-timed) wait by self is a violation now
 void forbid_blocking(bool on, const char* cls);
+/// an untimed wait by self on this particular mutex / rwlock is a violation (nullptr: off)
+void forbid_blocking_on(const void* obj, const char* cls);
+/// the mutex / rwlock self acquired most recently (nullptr: none yet)
+const void* last_lock_obj();
 
 /// happens-before race detection on plain accesses (default off; C07/C19 on)
 void check_races(bool on);
